@@ -46,7 +46,13 @@ def _case(draw):
     if draw(st.integers(0, 7)) == 0:
         req1["s"] = None  # default step = R/10
     return {"shot": spec, "req": [req1, req2], "h": draw(st.sampled_from([0.5, 0.5, 0.25, 1.0])),
-            "cut": draw(st.floats(0.15, 0.95)), "prior": draw(gen.prior())}
+            "cut": draw(st.floats(0.15, 0.95)), "prior": draw(gen.prior()),
+            # one case in five: the first request's record step is placed so that a record distance falls inside the integration
+            # step in which one of the shot's events (sight-line crossing, Mach 1) is detected (placement decided by the check
+            # from a preliminary trace of the same shot: a deterministic function of the case)
+            "event_align": draw(st.one_of(st.none(), st.none(), st.none(), st.none(),
+                                          st.fixed_dictionaries({"pick": st.integers(0, 5), "frac": st.floats(0.02, 0.98), "k": st.integers(1, 8),
+                                                                 "beyond": st.sampled_from([2.37, 1.0, 3.5, 0.4])})))}
 
 
 def _fire(case, req, prior=None):
@@ -75,6 +81,19 @@ def _at(rows, m):
 def check(case):
     r = Res()
     req1, req2 = case["req"]
+    ea = case.get("event_align")
+    if ea:
+        pre, perr = build.trace(build.calculator({"max_calc_step_size_feet": case["h"]}), build.shot(case["shot"]), max(req1["R"], req2["R"]), extra=True)
+        evs = [i for i, p in enumerate(pre) if i >= 3 and (p.flag & 7) and i < len(pre) - (1 if perr is not None else 0)]
+        if evs:
+            i = evs[ea["pick"] % len(evs)]
+            target = pre[i - 1].x + ea["frac"] * (pre[i].x - pre[i - 1].x)
+            s_new = target / ea["k"]
+            req1 = dict(req1, s=s_new, R=target + ea["beyond"] * s_new, extra=bool(ea["pick"] % 2))
+            case = dict(case, req=[req1, req2])
+            r.label("record-distance-inside-event-step:" + ("mach" if pre[i].flag & 4 else "zero"))
+        else:
+            r.label("event-align:no-event")
     # the first request may run on a calculator that has been used before (for another shot, with other recording options)
     rows1, e1 = _fire(case, req1, case.get("prior"))
     if case.get("prior"):
